@@ -78,6 +78,11 @@ pub struct Wrap<'a> {
     inner: &'a mut SmtLibSolverCtx,
     depth: usize,
     logic_mismatch: bool,
+    /// a fresh process: set-logic is forwarded
+    pass_logic: bool,
+    /// the get-value calls: the queried expression and the value the library reads back
+    /// (`get_smt_value`: the answer evaluated without symbols), both dumped
+    values: Vec<(String, String)>,
 }
 
 impl SolverMetaData for Wrap<'_> {
@@ -103,6 +108,9 @@ impl SolverContext for Wrap<'_> {
         self.inner.restart()
     }
     fn set_logic(&mut self, option: Logic) -> Result<()> {
+        if self.pass_logic {
+            return self.inner.set_logic(option);
+        }
         if option != logic_for(self.inner) {
             self.logic_mismatch = true;
         }
@@ -132,7 +140,12 @@ impl SolverContext for Wrap<'_> {
         self.inner.pop()
     }
     fn get_value(&mut self, ctx: &mut Context, e: ExprRef) -> Result<ExprRef> {
-        self.inner.get_value(ctx, e)
+        let v = self.inner.get_value(ctx, e)?;
+        // what `get_smt_value` makes of the answer (it panics on the same answers as this does)
+        let empty: rustc_hash::FxHashMap<ExprRef, BitVecValue> = rustc_hash::FxHashMap::default();
+        let value = eval_expr(ctx, &empty, v);
+        self.values.push((dump_expr(ctx, e), dump_value(&value)));
+        Ok(v)
     }
     fn get_unsat_assumptions(&mut self, ctx: &mut Context) -> Result<Vec<ExprRef>> {
         self.inner.get_unsat_assumptions(ctx)
@@ -142,11 +155,13 @@ impl SolverContext for Wrap<'_> {
 pub struct Pool {
     sessions: HashMap<String, SmtLibSolverCtx>,
     pub launches: u64,
+    /// the get-value calls of the last `run_bmc`
+    pub last_queries: Vec<(String, String)>,
 }
 
 impl Pool {
     pub fn new() -> Self {
-        Pool { sessions: HashMap::new(), launches: 0 }
+        Pool { sessions: HashMap::new(), launches: 0, last_queries: Vec::new() }
     }
     pub fn drop_all(&mut self) {
         self.sessions.clear();
@@ -197,6 +212,7 @@ pub fn watchdog_disarm() {
 /// one call of the real `bmc`
 pub fn run_bmc(pool: &mut Pool, profile: &str, fresh: bool, ctx: &mut Context, sys: &TransitionSystem, individually: bool, k: u64) -> RunResult {
     let solver = solver_of(profile);
+    pool.last_queries.clear();
     let to_res = |r: std::result::Result<Result<ModelCheckResult>, String>| match r {
         Ok(Ok(ModelCheckResult::Success)) => RunResult::Success,
         Ok(Ok(ModelCheckResult::Unknown)) => RunResult::Unknown,
@@ -212,7 +228,13 @@ pub fn run_bmc(pool: &mut Pool, profile: &str, fresh: bool, ctx: &mut Context, s
             Ok(s) => s,
             Err(e) => return RunResult::Err(format!("cannot start {profile}: {e}")),
         };
-        return to_res(guarded(|| bmc(ctx, &mut smt, sys, false, individually, k)));
+        let (res, values) = {
+            let mut w = Wrap { inner: &mut smt, depth: 0, logic_mismatch: false, pass_logic: true, values: Vec::new() };
+            let r = guarded(|| bmc(ctx, &mut w, sys, false, individually, k));
+            (r, w.values)
+        };
+        pool.last_queries = values;
+        return to_res(res);
     }
     if !pool.sessions.contains_key(profile) {
         pool.launches += 1;
@@ -231,11 +253,12 @@ pub fn run_bmc(pool: &mut Pool, profile: &str, fresh: bool, ctx: &mut Context, s
         pool.sessions.remove(profile);
         return RunResult::Err(format!("outer push: {e}"));
     }
-    let (res, depth, mismatch) = {
-        let mut w = Wrap { inner, depth: 0, logic_mismatch: false };
+    let (res, depth, mismatch, values) = {
+        let mut w = Wrap { inner, depth: 0, logic_mismatch: false, pass_logic: false, values: Vec::new() };
         let r = guarded(|| bmc(ctx, &mut w, sys, false, individually, k));
-        (r, w.depth, w.logic_mismatch)
+        (r, w.depth, w.logic_mismatch, w.values)
     };
+    pool.last_queries = values;
     let res = to_res(res);
     let broken = matches!(res, RunResult::Err(_) | RunResult::Panic(_));
     if broken {
@@ -563,7 +586,12 @@ pub fn run_case(id: &str, inp: McInput, plan: &[RunSpec], pool: &mut Pool, z3arg
                 stats.bump("cex_length", &format!("{}", w.inputs.len()));
                 let sim = sim_replay(&ctx, the_sys, w);
                 stats.bump("sim_replay", sim.split(':').next().unwrap_or("?"));
-                format!("(fail {} (sim {}))", dump_witness(w), quote(&sim))
+                let mut q = String::from("(queries");
+                for (e, v) in pool.last_queries.iter() {
+                    q.push_str(&format!(" (q {e} {v})"));
+                }
+                q.push(')');
+                format!("(fail {} (sim {}) {})", dump_witness(w), quote(&sim), q)
             }
         };
         stats.bump("config", &format!("{}/{}/{}", r.profile, if r.individually { "indiv" } else { "joint" }, if r.simplified { "simplified" } else { "raw" }));
